@@ -10,6 +10,9 @@ def run(ctx):
     ca.filter_first(ctx, "J1939_21")
     ca.filter_first(ctx, "J1939_22")
     ca.subscriber_rule(ctx)
+    ctx.rule("R-CA-LOOPS", "filter and dispatch loops over the stack's CAs consult every CA (no early exit)", floor=4)
+    ca.ca_loops(ctx, "J1939_21")
+    ca.ca_loops(ctx, "J1939_22")
     from rules import codec
     ctx.rule("O-PGN", "PDU1/PDU2 classification used by the filter is exact and complementary on 0..255", floor=10)
     codec.pgn(ctx)
